@@ -4,6 +4,7 @@ from vcheck import cN, cstr, cbool, copt, clist, cpair, ctagop
 id = "C18"
 engine = "retryopts"
 coq_imports = ["Model.Base", "Model.TagExpr", "Model.RetryOpts", "Model.RetryOptsSpec", "Check.C18Check"]
+also = ["C18b"]   # last clause: --concurrency overrides / --fail-fast adds, on whole runs
 case_type = "rcase"
 model_name = "RetryOpts.parse_from_tags / RetryOpts.merge"
 monitor_name = "RetryOptsSpec.c18_ok"
